@@ -181,6 +181,19 @@ BASE = list(FEATURES)
 EXPR_FEATURES = {f"expr:{t[0]}": f"x_expr = {X.text(X.depth1(i))}\ny_ann: ({X.text(X.depth1(i))})\n" for i, t in enumerate(X.TEMPLATES)
                  if t[0] not in ("Await",) and not t[0].startswith("Yield") and t[0] != "NamedExpr"}
 CONTAINERS = ["module", "package", "namespace"]
+# further directory shapes (each with every single feature): nested namespace portions in the first / second / both search paths, nested regular packages,
+# a regular package inside a namespace portion, a stub next to its module, a stub-only package in another search path
+LAYOUTS = {
+    "ns-nested-2nd": ({"s1/nsp/one.py": "2", "s2/nsp/nested/two.py": "1"}, "nsp"),
+    "ns-nested-1st": ({"s1/nsp/nested/two.py": "1", "s2/nsp/one.py": "2"}, "nsp"),
+    "ns-nested-both": ({"s1/nsp/nested/a.py": "1", "s2/nsp/nested/b.py": "2"}, "nsp"),
+    "ns-deep-2nd": ({"s1/nsp/one.py": "2", "s2/nsp/n1/n2/deep.py": "1"}, "nsp"),
+    "ns-regular-sub": ({"s1/nsp/one.py": "2", "s2/nsp/reg/__init__.py": "I", "s2/nsp/reg/m.py": "1"}, "nsp"),
+    "pkg-nested": ({"s1/pkg/__init__.py": "I", "s1/pkg/sub/__init__.py": "i", "s1/pkg/sub/deep.py": "1", "s1/pkg/two.py": "2"}, "pkg"),
+    "pkg-2nd-path": ({"s1/other.py": "2", "s2/pkg/__init__.py": "i", "s2/pkg/m.py": "1"}, "pkg"),
+    "stub-beside": ({"s1/mod.py": "1", "s1/mod.pyi": "1"}, "mod"),
+    "stubs-package": ({"s1/pkg/__init__.py": "i", "s1/pkg/m.py": "1", "s2/pkg-stubs/__init__.pyi": "i", "s2/pkg-stubs/m.pyi": "1"}, "pkg"),
+}
 BUILTINS = ["math", "itertools", "errno", "_bisect", "atexit"]
 
 
@@ -205,6 +218,10 @@ def files_for(container, f1, f2):
         return {"s1/pkg/__init__.py": init, "s1/pkg/sub.py": source_for(f2, None) if f2 else "subv = 1\n"}, "pkg", ["s1"]
     if container == "namespace":
         return {"s1/nsp/one.py": source_for(f1, None), "s2/nsp/two.py": source_for(f2, None) if f2 else "twov = 1\n"}, "nsp", ["s1", "s2"]
+    if container in LAYOUTS:
+        src1, src2 = source_for(f1, None), (source_for(f2, None) if f2 else "twov = 1\n")
+        files = {k: {"1": src1, "2": src2, "i": "", "I": '"""Init doc."""\nfrom . import *\n'}[v] for k, v in LAYOUTS[container][0].items()}
+        return files, LAYOUTS[container][1], ["s1", "s2"]
     raise AssertionError(container)
 
 
@@ -220,6 +237,11 @@ def cases(tier):
             yield (container, f1, f2, "static")
             if tier == "thorough" or container != "namespace":
                 yield (container, f1, f2, "inspect")
+    for layout in LAYOUTS:
+        for f1 in BASE:
+            yield (layout, f1, None, "static")
+            if not layout.startswith("stub"):
+                yield (layout, f1, None, "inspect")
     for f in EXPR_FEATURES:
         yield ("module", f, None, "static")
         if tier == "thorough":
